@@ -389,6 +389,18 @@ class Converged:
                 a = np.diag(rng.uniform(5, 11, 3)) + rng.uniform(-1.0, 1.0, (3, 3))
             elif self.family == "skewed":
                 a = (np.array(SKEW) if k % 2 == 0 else np.array([[5.0, 0.0, 0.0], [4.9, 1.0, 0.0], [0.0, 0.0, 5.0]])) * rng.uniform(0.8, 1.5)
+            elif self.family == "nearly_equal_pairs":
+                # slightly distorted chains: pair vectors that agree to a few 1e-5 bohr but are not identical (distorted supercells, MD snapshots,
+                # finite-difference displacements): every pair has its own lattice sums
+                a = np.diag(rng.uniform(7, 10, 3)) + rng.uniform(-0.6, 0.6, (3, 3))
+                d = rng.uniform(1.1, 1.6, 3) * np.array([1.0, 0.3, -0.2])
+                nat = 3 + k % 2
+                pos = np.array([[0.4, 0.5, 0.6]]) + np.arange(nat)[:, None] * d[None, :]
+                pos[2:] += np.array([4e-5, -3e-5, 2e-5]) * rng.uniform(0.8, 1.2)
+                if nat == 4:
+                    pos[3:] += np.array([-2e-5, 4e-5, 3e-5])
+                out.append(dict(a=a.tolist(), frac=(pos @ np.linalg.inv(a)).tolist(), Z=[int(z) for z in rng.integers(2, 6, nat)]))
+                continue
             elif self.family == "madelung":
                 return [dict(name="NaCl", a=(np.array([[0, .5, .5], [.5, 0, .5], [.5, .5, 0]]) * 2).tolist(), frac=[[0, 0, 0], [.5, .5, .5]], Z=[1, -1], ref=-1.747564594633),
                         dict(name="CsCl", a=np.eye(3).tolist(), frac=[[0, 0, 0], [.5, .5, .5]], Z=[1, -1], ref=-1.762674773070 / (np.sqrt(3) / 2)),
@@ -405,7 +417,12 @@ class Converged:
         ref = c.get("ref")
         if ref is None:
             ref = ewald_reference(a, pos, c["Z"])
-        return abs(e - ref) / max(1.0, abs(ref)), e, ref
+        err = abs(e - ref) / max(1.0, abs(ref))
+        if self.family == "nearly_equal_pairs":
+            # and the atoms listed in the reverse order (which of two nearly equal pairs comes first must not matter)
+            e_rev = _native_E(a, pos[::-1], list(c["Z"])[::-1])
+            err = max(err, abs(e_rev - e) / max(1.0, abs(ref)))
+        return err, e, ref
 
     def __call__(self, ob, tier, seed):
         rng = np.random.default_rng(seed)
@@ -426,7 +443,7 @@ class Converged:
         return bool(err > 2e-6), dict(get_Eewald=e, reference=ref, rel_err=err)
 
 
-for _fam in ("orthorhombic", "triclinic", "skewed", "madelung"):
+for _fam in ("orthorhombic", "triclinic", "skewed", "madelung", "nearly_equal_pairs"):
     register(Obligation(name=f"C10.get_Eewald.converged_sum.{_fam}", prop=PROP, engine="B", bounded=True, functions=["eminus.energies:get_Eewald"],
                         run=Converged(_fam), budget={"quick": 300, "thorough": 1200},
                         doc=f"BOUNDED: default-parameter get_Eewald vs an independent converged Ewald sum ({_fam} cells, random bases and charges)"))
